@@ -27,7 +27,7 @@ class SimFS(object):
         self.latency = latency
         self.files = {}           # path -> bytearray (inode content)
         self.dirs = set(['/'])
-        self.fds = {}             # fd -> path  (path may be renamed)
+        self.fds = {}             # fd -> inode (the bytearray), as POSIX fds do
         self.next_fd = 100
         self.effects = 0          # numbered effects so far
         self.effect_log = []      # (n, kind, path)
@@ -49,6 +49,8 @@ class SimFS(object):
     def restore(self, snap):
         self.files = {p: bytearray(b) for p, b in snap.items()}
         self.fds = {}
+        self.killed = False
+        self.kill_at = None
 
     def _effect(self, kind, path):
         """numbers one effect; returns (n, errno-or-None).  May trigger the
@@ -113,7 +115,7 @@ class SimFS(object):
         self.files[name] = bytearray()
         fd = self.next_fd
         self.next_fd += 1
-        self.fds[fd] = name
+        self.fds[fd] = self.files[name]
         self._after(n)
         return fd, name
 
@@ -125,7 +127,7 @@ class SimFS(object):
                                     path)
         fd = self.next_fd
         self.next_fd += 1
-        self.fds[fd] = path
+        self.fds[fd] = self.files[path]
         return fd
 
     def close(self, fd):
@@ -139,9 +141,6 @@ class SimFS(object):
             raise FileNotFoundError(errno.ENOENT, _os.strerror(errno.ENOENT),
                                     src)
         self.files[dst] = self.files.pop(src)
-        for fd, p in list(self.fds.items()):
-            if p == src:
-                self.fds[fd] = dst
         self._after(n)
 
     def remove(self, path):
@@ -159,8 +158,7 @@ class SimFS(object):
     # ------------------------------------------------------------- aio shim
     def aio_write(self, fd, piece, offset, callback):
         piece = bytes(piece)
-        path = self.fds.get(fd)
-        n, err = self._effect('write', path or '?')
+        n, err = self._effect('write', '?')
         lat = self._lat('w', n)
         short = self.short_at.get(n)
 
@@ -174,11 +172,10 @@ class SimFS(object):
             if short is not None and len(data) > short:
                 data = data[:max(1, short)]
                 self.world.fault('short-write')
-            p = self.fds.get(fd)
-            if p is None or p not in self.files:
+            buf = self.fds.get(fd)
+            if buf is None:
                 callback(-1, errno.EBADF)
                 return
-            buf = self.files[p]
             if len(buf) < offset:
                 buf.extend(b'\0' * (offset - len(buf)))
             buf[offset:offset + len(data)] = data
@@ -205,11 +202,11 @@ class SimFS(object):
                 self.world.fault('disk-read-' + errno.errorcode.get(err, '?'))
                 callback(None, -1, err)
                 return
-            p = self.fds.get(fd)
-            if p is None or p not in self.files:
+            buf = self.fds.get(fd)
+            if buf is None:
                 callback(None, -1, errno.EBADF)
                 return
-            data = bytes(self.files[p][offset:offset + size])
+            data = bytes(buf[offset:offset + size])
             callback(data, len(data), 0)
         t = self.world.loop.timer(lat)
         t.start(complete)
@@ -265,4 +262,15 @@ def install(fs):
     ds.mkstemp = fs.mkstemp
     ds.aio_read = fs.aio_read
     ds.aio_write = fs.aio_write
+    # AioFile._keep_awake spins at 1 kHz only to keep a *real* loop awake
+    # while the kernel completes AIO; under SimLoop completions are loop
+    # timers, so the spinner is replaced by an idle sleeper (it also leaks
+    # for ever after AioFile.load() of a missing file, which would cost
+    # ~1000 steps per simulated second).
+    ds.AioFile._keep_awake = classmethod(_idle_keep_awake)
     return ds
+
+
+def _idle_keep_awake(cls):
+    while True:
+        gevent.sleep(1000.0)
